@@ -326,10 +326,18 @@ def main():
     try:
         broken = []          # strings naming what no longer checks
         ctx.log("regenerate model from /repo working tree")
-        fcntl.flock(lock, fcntl.LOCK_EX)
+        harness_only = bool(os.environ.get("VERIF_HARNESS_ONLY"))   # mutation campaigns on the backend glue only (tools/mutate.py): never in a registered check
+        if harness_only:
+            ctx.notes.append("VERIF_HARNESS_ONLY: model regeneration, Lean build and audit skipped (scratch mutation run)")
+        fcntl.flock(lock, fcntl.LOCK_EX if not harness_only else fcntl.LOCK_SH)
         try:
-            broken += regen(ctx)
-            model_ok = not any(b.startswith("model-not-derivable") for b in broken)
+            if harness_only:
+                ctx.index = json.load(open(os.path.join(VERIF, "gen", "index.json")))
+                raise_skip = True
+            else:
+                raise_skip = False
+                broken += regen(ctx)
+            model_ok = not any(b.startswith("model-not-derivable") for b in broken) and not raise_skip
             names, axioms = [], {}
             if model_ok and getattr(H, "NEEDS_TRANSLATOR", True):
                 ctx.log("validate translator (Route A vs Route B)")
